@@ -62,10 +62,17 @@ class Spec:
         self.where: Dict[int, Optional[Node]] = {}     # id(expression leaf returned by sources) -> node it is evaluated at
         self.rd = None
         # two rounds: aliases are expanded with the unrestricted definitions first, then with the feasible ones
-        for _ in range(2):
+        # decisions that look at live definitions (flags, None-ness) sharpen the reaching definitions, which sharpens the
+        # next round of decisions: iterate to a fixpoint (bounded)
+        prev = None
+        for _ in range(5):
             self._memo.clear()
             rd = _RD(fn, self.edge_ok)
             self.rd = rd
+            sig = frozenset((id(n), frozenset(id(d) for d in ds)) for n, ds in rd.in_.items())
+            if sig == prev:
+                break
+            prev = sig
         self.normal: Set[Node] = self.g.reachable([self.g.entry], may_raise=lambda n: False, edge_filter=self.edge_ok)
         self.nodes: Set[Node] = self.g.reachable([self.g.entry], edge_filter=self.edge_ok)
 
@@ -176,10 +183,11 @@ class Spec:
             return out
         if isinstance(expr, ast.BoolOp) and isinstance(expr.op, ast.Or):
             out = []
-            for v in expr.values:
+            for i, v in enumerate(expr.values):
+                last = i == len(expr.values) - 1
                 d = self.decide(v, at)
-                if d is False:
-                    continue
+                if d is False and not last:
+                    continue        # falsy: `or` moves on (the last operand is the result whatever it is)
                 out += self.sources(v, at, _depth + 1, _seen)
                 if d is True:
                     break
